@@ -1,6 +1,7 @@
 package main
 
 import (
+	"golang.org/x/tools/go/packages"
 	"go/ast"
 	"go/token"
 	"go/types"
@@ -927,7 +928,7 @@ func ruleAliasingIn(r *Run, rule string, fn *Func, resType, srcType, label strin
 			if f, ok := calleeFunc(info, x); ok && acceptedCopiers[FuncKey(f)] {
 				okCopy = true
 			}
-			if id, ok := x.Fun.(*ast.Ident); ok && (id.Name == "make" || id.Name == "append") {
+			if id, ok := x.Fun.(*ast.Ident); ok && (id.Name == "make" || (id.Name == "append" && freshAppend(info, x, fn.Decl.Body))) {
 				okCopy = true
 			}
 		case *ast.Ident:
@@ -938,7 +939,7 @@ func ruleAliasingIn(r *Run, rule string, fn *Func, resType, srcType, label strin
 			// a local built by make/clone call/append
 			if def := localDef(info, fn.Decl.Body, x); def != nil {
 				if c, ok := ast.Unparen(def).(*ast.CallExpr); ok {
-					if id, ok := c.Fun.(*ast.Ident); ok && (id.Name == "make" || id.Name == "append") {
+					if id, ok := c.Fun.(*ast.Ident); ok && (id.Name == "make" || (id.Name == "append" && freshAppend(info, c, fn.Decl.Body))) {
 						okCopy = true
 					}
 					if f, ok := calleeFunc(info, c); ok && acceptedCopiers[FuncKey(f)] {
@@ -1622,7 +1623,7 @@ func ruleTimeExemptionOnElement(r *Run, rule string) {
 		return
 	}
 	info := pkg.TypesInfo
-	n := 0
+	n, nEx := 0, 0
 	for _, fn := range r.P.sortedFuncs() {
 		if fn.Pkg != pkg || fn.Orig == nil || fn.Orig.Body == nil {
 			continue
@@ -1662,6 +1663,50 @@ func ruleTimeExemptionOnElement(r *Run, rule string) {
 				}
 				if !isStruct {
 					continue
+				}
+				// a statement of the case that passes the struct over (if … { continue / return }) may only do so for
+				// time.Time (round-3 seed C17-5: "any type with MarshalText" also exempts user structs with secure fields)
+				for _, st := range cc.Body {
+					is, ok := st.(*ast.IfStmt)
+					if !ok || len(is.Body.List) != 1 || is.Else != nil {
+						continue
+					}
+					skips := false
+					switch b := is.Body.List[0].(type) {
+					case *ast.BranchStmt:
+						skips = b.Tok == token.CONTINUE
+					case *ast.ReturnStmt:
+						skips = true
+					}
+					if !skips {
+						continue
+					}
+					isTimeTest := false
+					ast.Inspect(is, func(y ast.Node) bool {
+						switch v := y.(type) {
+						case *ast.TypeAssertExpr:
+							if v.Type != nil && ExprStr(v.Type) == "time.Time" {
+								isTimeTest = true
+							}
+						case *ast.BinaryExpr:
+							if v.Op == token.EQL {
+								for _, side := range []ast.Expr{v.X, v.Y} {
+									if o := ObjOf(info, side); o != nil {
+										if vs := pkgVarInit(pkg, o); vs != nil && strings.Contains(ExprStr(vs), "time.Time") {
+											isTimeTest = true
+										}
+									}
+									if strings.Contains(ExprStr(side), "time.Time{}") {
+										isTimeTest = true
+									}
+								}
+							}
+						}
+						return true
+					})
+					nEx++
+					r.Check(rule, "struct-exempt-only-if-time:"+ShortFn(fn.Key)+":"+ExprStr(subj), is.Pos(), isTimeTest,
+						"in %s a struct value is passed over unscrubbed on the condition %s, which is not the time.Time test: any struct for which it holds keeps its secure-tagged fields", ShortFn(fn.Key), ExprStr(is.Cond))
 				}
 				for _, st := range cc.Body {
 					ast.Inspect(st, func(y ast.Node) bool {
@@ -1709,7 +1754,91 @@ func ruleTimeExemptionOnElement(r *Run, rule string) {
 			return true
 		})
 	}
-	if n == 0 {
+	if n == 0 && nEx == 0 {
 		r.Unresolved(rule, "time.Time exemptions in the kind dispatches of package clone")
 	}
+}
+
+// pkgVarInit: the initialiser of a package-level variable.
+func pkgVarInit(pkg *packages.Package, o types.Object) ast.Expr {
+	var out ast.Expr
+	for _, f := range pkg.Syntax {
+		for _, d := range f.Decls {
+			gd, ok := d.(*ast.GenDecl)
+			if !ok {
+				continue
+			}
+			for _, sp := range gd.Specs {
+				vs, ok := sp.(*ast.ValueSpec)
+				if !ok {
+					continue
+				}
+				for i, nm := range vs.Names {
+					if pkg.TypesInfo.ObjectOf(nm) == o && i < len(vs.Values) {
+						out = vs.Values[i]
+					}
+				}
+			}
+		}
+	}
+	return out
+}
+
+// freshAppend: append(dst, …) yields memory of its own only when dst cannot lend its backing array: nil, a conversion
+// of nil, an empty literal, a make(…) result, a local built that way, or a full slice expression with zero capacity
+// (x[:0:0]). append(x[:0], x...) — round-3 seed C18-6 — copies x onto itself and returns x's own array.
+func freshAppend(info *types.Info, c *ast.CallExpr, body *ast.BlockStmt) bool {
+	if len(c.Args) == 0 {
+		return false
+	}
+	d := ast.Unparen(c.Args[0])
+	if ValueKey(info, d) == "nil" {
+		return true
+	}
+	switch x := d.(type) {
+	case *ast.CompositeLit:
+		return len(x.Elts) == 0
+	case *ast.CallExpr:
+		if id, ok := ast.Unparen(x.Fun).(*ast.Ident); ok {
+			if b, ok := info.ObjectOf(id).(*types.Builtin); ok && b.Name() == "make" {
+				return true
+			}
+		}
+		if len(x.Args) == 1 && ValueKey(info, x.Args[0]) == "nil" {
+			return true // []T(nil)
+		}
+		// append(append(nil…)…)
+		if id, ok := ast.Unparen(x.Fun).(*ast.Ident); ok && id.Name == "append" {
+			return freshAppend(info, x, body)
+		}
+	case *ast.SelectorExpr:
+		// a field of an object built in this function (np.Blocks = append(np.Blocks, nb)): the result's own slice
+		root := ast.Expr(x)
+		for {
+			sel, ok := ast.Unparen(root).(*ast.SelectorExpr)
+			if !ok {
+				break
+			}
+			root = sel.X
+		}
+		if id, ok := ast.Unparen(root).(*ast.Ident); ok && body != nil {
+			if o := info.ObjectOf(id); o != nil && body.Pos() <= o.Pos() && o.Pos() <= body.End() {
+				return true
+			}
+		}
+		return false
+	case *ast.SliceExpr:
+		if x.Slice3 && x.Max != nil {
+			if k, ok := ConstInt(info, x.Max); ok && k == 0 {
+				return true
+			}
+		}
+		return false
+	case *ast.Ident:
+		// a local declared without a value (`var out []T`) or built by make
+		if o, ok := info.ObjectOf(x).(*types.Var); ok && !o.IsField() && o.Parent() != nil && o.Pkg() != nil && o.Parent() != o.Pkg().Scope() {
+			return true // a local accumulator; what it was built from is judged where it is defined
+		}
+	}
+	return false
 }
